@@ -3,7 +3,7 @@ import WM.Lemmas.SearchCursor
 /-! Folding matcher constructors along a tree shape: the cursor tree denotes the folded list. -/
 namespace WM.Compile
 open WM.Search
-open WM.Matcher (Any mkInter mkUnion mkDisMax mkAndNot mkAndMaybe mkRequire mkInverse mkConst mkBoost allIds WF
+open WM.Matcher (Any mkInter mkUnion mkDisMax mkAndNot mkAndMaybe mkRequire mkInverse mkConst mkBoost mkAUnion allIds WF
   ListM unionWith scale)
 
 /-- a built matcher is well formed and denotes the list `l` -/
@@ -88,5 +88,182 @@ theorem opOk_dismax : OpOk (fun a b => pure (mkDisMax a b)) dismaxL := by
   refine ⟨mkDisMax a b, rfl, ⟨ha.1, hb.1⟩, ?_⟩
   show toPL (unionWith max a.den b.den) = _
   rw [toPL_unionMax, ha.2, hb.2]
+
+/-! ### `Or._matcher` over built clause matchers: tree of unions, scored array union -/
+
+theorem DenotesL.length : ∀ {ms : List Any} {pls : List PL}, DenotesL ms pls → ms.length = pls.length
+  | [], [], _ => rfl
+  | _ :: ms, _ :: ls, h => by simp [DenotesL.length (ms := ms) (pls := ls) h.2]
+  | [], _ :: _, h => by cases h
+  | _ :: _, [], h => by cases h
+
+/-- `ListMatcher` state over a posting list -/
+def listM (l : PL) : WM.Matcher.St .list := (⟨l.map (·.id), l.map (·.score), 0, true⟩ : ListM)
+
+theorem listOf_eq (l : PL) : listOf l = ⟨.list, listM l⟩ := rfl
+theorem listOf_def : listOf = fun l => (⟨.list, listM l⟩ : Any) := rfl
+
+theorem castTo_list (pls : List PL) : castTo .list (pls.map listOf) = some (pls.map listM) := by
+  induction pls with
+  | nil => rfl
+  | cons l pls ih =>
+    simp only [List.map_cons, castTo, listOf_eq, dite_true]
+    rw [ih]; rfl
+
+/-- a property of entries that survives adding the scores of two entries of one document holds for every
+    entry of a merge / of the union of several lists -/
+theorem mergeWith_forall {P : Hit → Prop} (g : Rat → Rat → Rat)
+    (hg : ∀ x y : Hit, P x → P y → x.id = y.id → P ⟨x.id, g x.score y.score⟩) (a b : PL)
+    (ha : ∀ e ∈ a, P e) (hb : ∀ e ∈ b, P e) : ∀ e ∈ mergeWith g a b, P e := by
+  fun_induction mergeWith g a b with
+  | case1 b => exact hb
+  | case2 a as => exact ha
+  | case3 a as b bs hlt ih =>
+    intro e he
+    rcases List.mem_cons.mp he with rfl | he
+    · exact ha _ List.mem_cons_self
+    · exact ih (fun x hx => ha x (List.mem_cons_of_mem _ hx)) hb e he
+  | case4 a as b bs hlt hgt ih =>
+    intro e he
+    rcases List.mem_cons.mp he with rfl | he
+    · exact hb _ List.mem_cons_self
+    · exact ih ha (fun x hx => hb x (List.mem_cons_of_mem _ hx)) e he
+  | case5 a as b bs hlt hgt ih =>
+    intro e he
+    rcases List.mem_cons.mp he with rfl | he
+    · exact hg a b (ha _ List.mem_cons_self) (hb _ List.mem_cons_self) (by omega)
+    · exact ih (fun x hx => ha x (List.mem_cons_of_mem _ hx)) (fun x hx => hb x (List.mem_cons_of_mem _ hx)) e he
+
+theorem unionAll_forall {P : Hit → Prop}
+    (hg : ∀ x y : Hit, P x → P y → x.id = y.id → P ⟨x.id, x.score + y.score⟩) :
+    ∀ (ms : List PL), (∀ m ∈ ms, ∀ e ∈ m, P e) → ∀ e ∈ unionAll ms, P e
+  | [], _ => by intro e he; cases he
+  | m :: ms, h => by
+    show ∀ e ∈ mergeWith (· + ·) m (unionAll ms), P e
+    exact mergeWith_forall _ hg m (unionAll ms) (h m List.mem_cons_self)
+      (unionAll_forall hg ms (fun x hx => h x (List.mem_cons_of_mem _ hx)))
+
+theorem toPL_sumDens (Ds : List WM.Matcher.Den) : toPL (WM.Matcher.sumDens Ds) = unionAll (Ds.map toPL) := by
+  induction Ds with
+  | nil => rfl
+  | cons D Ds ih =>
+    show toPL (unionWith (· + ·) D (WM.Matcher.sumDens Ds)) = unionL (toPL D) (unionAll (Ds.map toPL))
+    rw [toPL_unionAdd, ih]
+
+theorem toPL_below (n : Nat) (L : WM.Matcher.Den) (h : ∀ e ∈ toPL L, e.id < n) : toPL (WM.Matcher.below n L) = toPL L := by
+  unfold WM.Matcher.below
+  rw [List.filter_eq_self.mpr]
+  intro p hp
+  have := h ⟨p.1, p.2⟩ (List.mem_map.mpr ⟨p, hp, rfl⟩)
+  simpa using this
+
+theorem mem_den_listM {l : PL} {p : Nat × Rat} (hp : p ∈ WM.Matcher.den .list (listM l)) : (⟨p.1, p.2⟩ : Hit) ∈ l := by
+  have h := den_listOf l
+  have : (⟨p.1, p.2⟩ : Hit) ∈ toPL (listOf l).den := List.mem_map.mpr ⟨p, hp, rfl⟩
+  rw [h] at this; exact this
+
+theorem full_listM (l : PL) : WM.Matcher.full .list (listM l) = WM.Matcher.den .list (listM l) := by
+  show (listM l).ids.zip (listM l).weights = ((listM l).ids.zip (listM l).weights).drop 0
+  rw [List.drop_zero]
+
+/-- `ArrayUnionMatcher` over plain list matchers with positive scores below `dc`, positive boost: built without
+    error, well formed, and it means the array-union list of `compile` (which, the scores being positive, is the
+    boosted sum) -/
+theorem aunion_denotes (dc : Nat) (b : Rat) (hb : 0 < b) (pls : List PL)
+    (hpl : ∀ l ∈ pls, Sorted l ∧ ∀ e ∈ l, 0 < e.score ∧ e.id < dc) :
+    ∃ m, mkAUnion .list (pls.map listM) dc b 2048 = .ok m ∧
+      Denotes m (arrayParts 2048 (unionAll (pls.map (boostL b)))) := by
+  have hw : ∀ x ∈ pls.map listM, WF .list x := by
+    intro x hx
+    obtain ⟨l, hl, rfl⟩ := List.mem_map.mp hx
+    exact (denotes_listOf (hpl l hl).1).1
+  have hdp : ∀ x ∈ pls.map listM, ∀ p ∈ WM.Matcher.den .list x, 0 < p.2 := by
+    intro x hx p hp
+    obtain ⟨l, hl, rfl⟩ := List.mem_map.mp hx
+    exact ((hpl l hl).2 _ (mem_den_listM hp)).1
+  have hfp : ∀ x ∈ pls.map listM, ∀ p ∈ WM.Matcher.full .list x, 0 < p.2 := by
+    intro x hx p hp
+    obtain ⟨l, hl, rfl⟩ := List.mem_map.mp hx
+    rw [full_listM] at hp
+    exact ((hpl l hl).2 _ (mem_den_listM hp)).1
+  obtain ⟨m, h1, h2, h3⟩ := WM.C11.aunion_constructor_wf .list (pls.map listM) dc b 2048 hw hb (by decide) hdp hfp
+  refine ⟨m, h1, h2, ?_⟩
+  have hmap : ((pls.map listM).map fun x => scale b (WM.Matcher.den .list x)).map toPL = pls.map (boostL b) := by
+    rw [List.map_map, List.map_map]
+    apply List.map_congr_left
+    intro l _
+    show toPL (scale b (listOf l).den) = boostL b l
+    rw [toPL_scale, den_listOf]
+  have hall : ∀ e ∈ unionAll (pls.map (boostL b)), 0 < e.score ∧ e.id < dc := by
+    apply unionAll_forall (P := fun e => 0 < e.score ∧ e.id < dc)
+    · intro x y hx hy _
+      exact ⟨by have := hx.1; have := hy.1; show 0 < x.score + y.score; grind, hx.2⟩
+    · intro m' hm' e he
+      obtain ⟨l, hl, rfl⟩ := List.mem_map.mp hm'
+      obtain ⟨e0, he0, rfl⟩ := List.mem_map.mp he
+      exact ⟨Rat.mul_pos ((hpl l hl).2 e0 he0).1 hb, ((hpl l hl).2 e0 he0).2⟩
+  rw [h3, toPL_below, toPL_sumDens, hmap, arrayParts_pos _ _ (fun e he => (hall e he).1)]
+  rw [toPL_sumDens, hmap]
+  exact fun e he => (hall e he).2
+
+/-- the condition under which `orManyM` has a node for what `Or._matcher` builds -/
+def OrOK (ctx : Ctx) (dc : Nat) (b : Rat) (ms : List Any) (pls : List PL) : Prop :=
+  (ms.length < 1024 ∧ (ctx.nc = true ∨ ms.length = 2 ∨ 5000 < dc)) ∨
+  (ctx.scored = true ∧ 0 < b ∧ ms = pls.map listOf ∧ ∀ l ∈ pls, Sorted l ∧ ∀ e ∈ l, 0 < e.score ∧ e.id < dc)
+
+theorem orManyM_denotes {ctx : Ctx} {dc : Nat} {b : Rat} {ms : List Any} {pls : List PL} (sh : Compile.Shape)
+    (h : DenotesL ms pls) (h2 : 2 ≤ ms.length) (hok : OrOK ctx dc b ms pls) :
+    ∃ m, orManyM ctx dc sh ms b = .ok m ∧ Denotes m (orMany ctx dc sh pls b) := by
+  have hlen := h.length
+  unfold orManyM orMany
+  by_cases hcond : (decide (ms.length < 1024) && (ctx.nc || ms.length == 2 || decide (5000 < dc))) = true
+  · have hcond' : (decide (pls.length < 1024) && (ctx.nc || pls.length == 2 || decide (5000 < dc))) = true := by
+      rw [← hlen]; exact hcond
+    simp only [hcond, hcond', if_true]
+    obtain ⟨m, hm, hdm⟩ := foldShapeM_denotes opOk_union h sh
+    exact ⟨boostM b m, by rw [hm]; rfl, denotes_boostM b hdm⟩
+  · have hcond' : ¬ (decide (pls.length < 1024) && (ctx.nc || pls.length == 2 || decide (5000 < dc))) = true := by
+      rw [← hlen]; exact hcond
+    rcases hok with ⟨hlt, hor⟩ | ⟨hsc, hb, hms, hpl⟩
+    · exfalso; apply hcond
+      rcases hor with hnc | h2' | hdc
+      · simp [hlt, hnc]
+      · simp [h2']
+      · simp [hlt, hdc]
+    · simp only [hcond, hcond', hsc, if_true, if_false, Bool.false_eq_true]
+      subst hms
+      cases pls with
+      | nil => simp at h2
+      | cons l0 pls' =>
+        obtain ⟨m, h1, hd⟩ := aunion_denotes dc b hb (l0 :: pls') hpl
+        refine ⟨m, ?_, hd⟩
+        have hc := castTo_list (l0 :: pls')
+        simp only [List.map_cons, listOf_def] at hc ⊢
+        rw [hc]
+        exact h1
+
+/-- the constant-score scheme on both sides -/
+theorem csM_denotes (ctx : Ctx) (c : Rat) {m : Any} {l : PL} (h : Denotes m l) :
+    ∃ m', csM ctx c m = .ok m' ∧ Denotes m' (csL ctx c l) := by
+  unfold csM csL
+  by_cases hnc : ctx.nc = true
+  · simp only [hnc, if_true]
+    refine ⟨mkConst m c, rfl, h.1, ?_⟩
+    show toPL (WM.Matcher.constScore c m.den) = _
+    rw [toPL_constScore, h.2]
+  · simp only [hnc]
+    have hids := WM.C11.all_ids_base m h.1
+    refine ⟨_, by rw [hids]; rfl, ?_⟩
+    have heq : (m.den.map (·.1)).map (fun i => (⟨i, wOf c⟩ : Hit)) = constL (wOf c) l := by
+      rw [← h.2]
+      simp [constL, toPL, List.map_map, Function.comp_def]
+    rw [heq]
+    apply denotes_listOf
+    apply constL_sorted
+    rw [← h.2]
+    have hasc := WM.C11.sorted m.1 m.2 h.1
+    unfold Sorted toPL
+    rw [List.pairwise_map]
+    exact hasc
 
 end WM.Compile
